@@ -1158,6 +1158,13 @@ def call_builtin(it, name, args, kwargs):
         if len(a) == 2:
             return Range(a[0], a[1])
         return Range(a[0], a[1], a[2])
+    if name == "map":
+        fn = args[0]
+        return tuple(it.call(fn, [x], {}) for x in it.iterate_concrete(args[1]))
+    if name == "filter":
+        fn = args[0]
+        return tuple(x for x in it.iterate_concrete(args[1])
+                     if it.decide(it.call(fn, [x], {}) if fn is not None else x, "filter()"))
     if name == "enumerate":
         start = args[1] if len(args) > 1 else kwargs.get("start", 0)
         return tuple((i + start, x) for i, x in enumerate(it.iterate_concrete(args[0])))
